@@ -10,12 +10,26 @@ DISABLED = True
 
 PID = "C41"
 THEOREMS = [
+    "PorepyVerif.C41.multilinear_as_tree",
+    "PorepyVerif.C41.coefs_as_tree",
+    "PorepyVerif.C41.affine_as_tree",
+    "PorepyVerif.C41.interp_multilinear_exact",
+    "PorepyVerif.C41.interp_tensor_exact",
+    "PorepyVerif.C41.grad_multilinear_exact",
+    "PorepyVerif.C41.grad_linear_exact",
+    "PorepyVerif.C41.weights_partition_unity",
+    "PorepyVerif.C41.base_in_range",
+    "PorepyVerif.C41.point_in_range",
+    "PorepyVerif.C41.adaptive_eq_standard",
+    "PorepyVerif.C41.adaptive_eq_standard_multilinear",
+    "PorepyVerif.C41.adaptive_multilinear_exact",
+    "PorepyVerif.C41.adaptive_fill_on_demand",
 ]
 LEAN_MODULES = ["PorepyVerif.C41.Props"]
 LEAN_DIRS = ["C46"]
 AUDIT = "PorepyVerif/C41/Audit.lean"
 DRIVER = "PorepyVerif/C41/Driver.lean"
-N = {"quick": 160, "thorough": 4000}
+N = {"quick": 600, "thorough": 12000}
 RULE = ("a case = one box (d = 1..4 parameters, dyadic low, dyadic mesh size h, 2..6 points per axis), one function with 1..3 "
         "components, each a random integer coefficient tensor over all 2^d monomials (sometimes affine only, sometimes with extra "
         "non-multilinear monomials x_i^2 … so that the table is NOT exact and the model is compared on general functions), and 2..6 "
@@ -449,8 +463,16 @@ def model_decode(outs, case):
     return res
 
 
+def _approx(case):
+    """exact comparison only when binary64 is provably exact on this case (bit budget); otherwise tolerance class T"""
+    if case.get("approx"):
+        return True
+    b = bit_budget(case)
+    return b is None or b > 52
+
+
 def compare(impl, model, case):
-    tolr = 1e-9 if case.get("approx") else None
+    tolr = 1e-9 if _approx(case) else None
     if "harness_exc" in impl:
         return "impl_run crashed: " + impl["harness_exc"]
     for part in ("std", "adp", "asg"):
@@ -475,7 +497,7 @@ def _on_upper(case, p):
 
 
 def _eq(case, got, want):
-    if case.get("approx"):
+    if _approx(case):
         return abs(float(got) - float(want)) <= 1e-9 * max(1.0, abs(float(want)))
     return F(float(got)) == want
 
@@ -556,6 +578,21 @@ def oracle(case):
                     want = f_exact(case["fns"][r], d, xq) if call["op"] == "interp" else d_exact(case["fns"][r], d, xq, call["axis"])
                     if not _eq(case, adp[r, j], want):
                         return {"what": f"adaptive {call['op']}({p}) = {frac(adp[r, j])}, exact = {want}", "key": "adaptive-not-exact"}
+    if dim == 1 and use_adp and not (case.get("default_base") and d != dim):
+        # adaptive table fed through quadrature_points_from_coordinates / assign_values (permuted order)
+        asg = _run_asg(case)
+        std_all = _run_std(case, Fn(case))
+        for ci, (call, e, sres) in enumerate(zip(case["calls"], asg, std_all)):
+            if not all(_in_box(case, p) for p in call["pts"]) or "vals" not in sres:
+                continue
+            if "vals" not in e["res"]:
+                return {"what": f"adaptive table with assigned values: call {ci} ({call['op']}) raised {e['res']} at {call['pts']}", "key": "assigned-raises"}
+            for r in range(dim):
+                for j, p in enumerate(call["pts"]):
+                    if call["op"] == "grad" and not ml and _on_upper(case, p):
+                        continue
+                    if not _eq(case, float(F(e["res"]["vals"][r][j])), F(sres["vals"][r][j])):
+                        return {"what": f"adaptive table with assigned values: {call['op']}({p}) = {e['res']['vals'][r][j]} but standard table gives {sres['vals'][r][j]}", "key": "assigned-differs-" + call["op"]}
     if dim == 1 and use_adp:
         nst = a._table._coords.shape[1]
         if fn_a.calls != nst or a._pt.shape[1] != nst:
